@@ -29,7 +29,8 @@ class CHECK(Check):
             "type (4 classes, the family base, the default class) x filter dictionaries {} / matching / non-matching / None-valued before and after other keys / "
             "None-valued over 0-2 attributes x {of_type, get_*_of_type, remove_*_of_type}; (b) random containers of "
             "1-10 members with queries interleaved with structural operations. non-trivial = the query selects at "
-            "least one but not all members, or bulk removal hits a match value-equal to the first; distinct = case hash")
+            "least one but not all members, or bulk removal hits a match value-equal to the first; distinct = case hash"
+            " Later additions: half of the cases use equal-but-distinct Python objects for member attributes and filter values (big ints, floats, run-time strings, int vs float); the NaN singleton as attribute and filter.")
 
     def gen(self, tier, rng):
         maxn = 3 if tier == "quick" else 4
